@@ -623,7 +623,7 @@ def render_layout(stmts, seed, file_index, opts=None):
         line = indent + text
         if opts.get('ws') and rng.random() < 0.3:
             line += _ws(rng, opts, 1)
-        if opts.get('comments') and rng.random() < 0.25 and not text.startswith('#include'):
+        if opts.get('comments') and rng.random() < 0.25:
             line += _ws(rng, opts, 0) + ';' + rng.choice([' c', 'x', ' nop', ' "q"', '', ' 3.5" disk', " isn't", ' say "hi', " 'x"])
         lines.append(line)
         i += 1
